@@ -7,6 +7,22 @@ props = [json.loads(l) for l in open(os.path.join(HERE, "properties.jsonl"))]
 MC = "model_checking"
 CHECKS = {
 
+ "C01": dict(
+   level="exploration", engine="enumlib", design="DESIGN.md section 2, C01",
+   technique="bounded-exhaustive enumeration of the value grammar (small-scope model checking of the input space) against a typed structural-equality oracle; channel clause on a virtual gateway session",
+   text="All values up to depth 2 over a 54-element boundary leaf set (ints on both sides of +-2**31, +-2**63, 10**30, 10**4299; float specials incl. -0.0, inf, NaN with payload, denormal; complex; bytes 0..255; str incl. NUL, non-BMP; bool vs int), depth 3 over a 12-leaf representative set, deep nesting, key-order permutations, 70 kB items (46k values): loads(dumps(v)), dump/load over a stream and a channel echo (virtual popen, socket, via) must give a value that is equal with the same type at every position, dict order and float bits preserved. 29 unsupported leaves (foreign types, subclass instances, subclasses whose __name__ collides with a builtin, non-encodable str) x 10 container positions must raise DumpError; on a channel nothing reaches the wire and the channel stays usable.",
+   note="Ints beyond CPython's 4300-digit str limit are a recorded known finding. The channel clause is sequential and checked on the default schedule."),
+ "C12": dict(
+   level="exploration", engine="enumlib", design="DESIGN.md section 2, C12",
+   technique="bounded-exhaustive enumeration against an independent reference encoder/decoder for dump format v2 (engine/refcodec.py never imports execnet); cross-interpreter run on python3.11",
+   text="dumps(v) is compared byte-for-byte with the reference encoder for the whole C01 value space (45k values); 2200 reference-encoded streams incl. 705 in the Python-2 dialect (PY2STRING/UNICODE/LONG/LONGLONG) are loaded under all 4 coercion settings and compared with the reference decoder; all 256 version bytes; opcode table letter by letter; Channel.reconfigure / Gateway.reconfigure with injected py2-dialect frames in a virtual session; python3.11 dumps what 3.12 loads and vice versa (400 values).",
+   note="Python 3.10 and 3.13 are not installed here (not covered). The reference codec is trusted as the statement of format version 2."),
+ "C13": dict(
+   level="exploration", engine="enumlib", design="DESIGN.md section 2, C13",
+   technique="exhaustive enumeration of all byte strings over an opcode alphabet up to a length bound, plus all single-byte substitutions/deletions/insertions and strict prefixes of valid dumps; differential oracle against a strict reference decoder",
+   text="ALL 810k..24M byte strings version+w (w over 31 symbols: every opcode, an unknown opcode, boundary bytes; length <=4 quick / <=5 thorough) and every 1-byte substitution, deletion, insertion and strict prefix of ~60 valid dumps (780k inputs): load() must terminate with a value built only from supported builtin types (equal to the reference decoder's value when the dump is valid) or DataFormatError, EOFError only if a read really hit the end of input, no audit event (exec/compile/import/open/subprocess/socket), no Channel object created, no strict prefix accepted.",
+   note="NEWLIST counts that the remaining input cannot justify are classified by the reference decoder, not executed, and tracked as known finding c13:newlist-preallocation. Acceptance of inputs the strict reference rejects is counted but is not a violation of the property's letter."),
+
  "C04": dict(
    level=MC, design="DESIGN.md section 2, C04",
    technique="stateless model checking with exhaustive crash-point enumeration: every byte offset of the peer->survivor stream as cut point (explorer choice) crossed with survivor schedules, on popen / socket / proxied IO classes",
